@@ -497,6 +497,99 @@ func c19(c *Ctx) {
 	c.Rule("R5", "E4 provenance", "OTEL_RESOURCE_ATTRIBUTES: the stored value is the percent-decoder's output (or the raw text when decoding fails) with nothing applied after decoding; pairs without '=' are not stored", 4)
 	ruleEnvParser(c, rx, "R5")
 
+	// R6 a schema-URL conflict among detectors leaves the resource without a schema URL, on every route that runs detectors
+	c.Rule("R6", "E2 reachability under the error fact", "every function that runs detectors (Detect, New, through detect) hands back a resource whose schema URL has been emptied when the joined error is an ErrSchemaURLConflict: the reset is on every path of detect itself, or of each caller after the call", 2)
+	if det := c.Fn(rx, "R6", "detect"); det != nil {
+		fSchema := lookupField(rx.Pkg, "Resource", "schemaURL")
+		env := func(e ast.Expr) (constant.Value, bool) {
+			switch x := unparen(e).(type) {
+			case *ast.CallExpr:
+				if isCallTo(info, x, "errors.Is") && len(x.Args) == 2 {
+					if v, ok := pkgVarOf(info, x.Args[1]); ok && v.Name() == "ErrSchemaURLConflict" {
+						return constant.MakeBool(true), true
+					}
+				}
+			case *ast.BinaryExpr:
+				if (x.Op == token.NEQ || x.Op == token.EQL) && isNilIdent(info, x.Y) && isErrVar(info, x.X) {
+					return constant.MakeBool(x.Op == token.NEQ), true
+				}
+			}
+			return nil, false
+		}
+		isClear := func(n ast.Node) bool {
+			as, ok := n.(*ast.AssignStmt)
+			if !ok || len(as.Lhs) != len(as.Rhs) {
+				return false
+			}
+			for i, l := range as.Lhs {
+				if fv, _ := fieldOf(info, l); fv != nil && fSchema != nil && fv.Origin() == fSchema.Origin() {
+					if tv, ok := info.Types[as.Rhs[i]]; ok && tv.Value != nil && tv.Value.Kind() == constant.String && constant.StringVal(tv.Value) == "" {
+						return true
+					}
+				}
+			}
+			return false
+		}
+		// clearsFrom: under the conflict facts no path from the start vertices reaches the exit without the reset
+		clearsFrom := func(f *FuncInfo, starts []*GNode) (bool, string) {
+			g := rx.FG(f)
+			clears := toSet(g.Match(isClear))
+			envL := g.withLocals(env)
+			seen, parent := g.Reach(starts, func(x *GNode) bool { return clears[x] }, func(e *GEdge) bool { return !edgeOpen(info, e, envL) })
+			for _, st := range starts {
+				if clears[st] {
+					return true, ""
+				}
+			}
+			if seen[g.Exit] {
+				return false, g.pathLines(parent, g.Exit)
+			}
+			return true, ""
+		}
+		dg := rx.FG(det)
+		// inside detect: from the last point where err can become a conflict (every Merge call) to the exit
+		var merges []*GNode
+		for _, x := range dg.Nodes {
+			if x.N == nil {
+				continue
+			}
+			hit := false
+			inspectNoLit(x.N, func(n ast.Node) bool {
+				if call, ok := n.(*ast.CallExpr); ok && callToDecl(info, merge)(call) {
+					hit = true
+				}
+				return true
+			})
+			if hit {
+				merges = append(merges, x)
+			}
+		}
+		inDetect := false
+		if len(merges) > 0 {
+			inDetect, _ = clearsFrom(det, merges)
+		}
+		callers := rx.FindCalls(func(f *FuncInfo, call *ast.CallExpr) bool { return callToDecl(info, det)(call) })
+		if len(callers) == 0 {
+			c.Violation("R6", "sdk/resource|detect|callers", at(rx.M, det.Pos()), "detect has no caller: the analysis no longer sees how detectors are run")
+		}
+		for _, cs := range callers {
+			outer := rx.Outer(cs.F)
+			key := "sdk/resource|" + outer.Name + "|schema URL emptied on ErrSchemaURLConflict from the detectors"
+			if inDetect {
+				c.OK("R6", key, rx.at(cs), "detect resets the schema URL on every conflict path before it returns")
+				continue
+			}
+			g := rx.FG(cs.F)
+			nd := g.NodeOf(cs.N)
+			ok, why := false, "call vertex not found"
+			if nd != nil {
+				ok, why = clearsFrom(cs.F, []*GNode{nd})
+			}
+			c.Check(ok, "R6", key, rx.at(cs), "the caller resets the schema URL after detect reported the conflict",
+				"detectors with conflicting schema URLs yield ErrSchemaURLConflict together with a resource that still carries a schema URL (that of the last merge): "+why)
+		}
+	}
+
 	c.Rule("R4", "E4 delegation", "Equal and Equivalent delegate to the attribute set's identity", 2)
 	if fn := c.Fn(rx, "R4", "(*Resource).Equivalent"); fn != nil {
 		good := false
